@@ -659,6 +659,32 @@ func runValExh(c *core.Ctx) {
 					}
 				}
 			}
+			// … or through a private helper that is handed the fresh value and calls its
+			// UnmarshalJSON (dynamically: the helper takes any client message) with the input
+			for _, ci := range calls(parse) {
+				hc, isCall := ci.(*ssa.Call)
+				if !isCall {
+					continue
+				}
+				g := an.StaticCallee(&hc.Call)
+				if !an.PrivateHelper(g) || len(g.Params) != len(hc.Call.Args) {
+					continue
+				}
+				for i, arg := range hc.Call.Args {
+					if an.Unwrap(arg) != ssa.Value(a) {
+						continue
+					}
+					an.Instrs(g, func(gin ssa.Instruction) {
+						gc, isGC := gin.(*ssa.Call)
+						if !isGC || !gc.Call.IsInvoke() || gc.Call.Method.Name() != "UnmarshalJSON" {
+							return
+						}
+						if an.Unwrap(gc.Call.Value) == ssa.Value(g.Params[i]) && len(gc.Call.Args) == 1 && an.PathOfIn(gc.Call.Args[0], &hc.Call) == "p:"+parse.Params[0].Name() {
+							okParse = true
+						}
+					})
+				}
+			}
 			for _, g := range an.Guards(parse, a.Block()) {
 				if b, ok := g.V.(*ssa.BinOp); ok && b.Op == token.EQL && g.True {
 					for _, side := range []ssa.Value{b.X, b.Y} {
